@@ -1542,6 +1542,12 @@ class MeshInterp(Interp):
         return Arr([D(x) for x in out], rest, isbool=isbool)
 
     def np_call(self, fn, args, kwargs):
+        if fn in ("shape", "ndim", "size") and len(args) == 1 and not kwargs:
+            a0 = args[0]
+            a0 = self.num(a0) if not isinstance(a0, Arr) else a0
+            if isinstance(a0, Arr):
+                return tuple(a0.shape) if fn == "shape" else (a0.ndim if fn == "ndim" else a0.size())
+            return () if fn == "shape" else (0 if fn == "ndim" else 1)
         n = self.num
         if fn in ("zeros", "ones", "empty"):
             shp = self._shape_arg(args[0] if args else kwargs["shape"])
